@@ -186,6 +186,13 @@ pub fn gen_magic_batch(d: &mut D) -> Vec<Spec> {
                 fields.push(f);
             }
             s.body = Body::Struct(fields);
+            // a container-level fallback: the magic fields must still come from the input
+            match d.below(8) {
+                0 => s.container.default = Dflt::Trait,
+                1 => s.container.default = Dflt::Fn,
+                2 if matches!(tr, Trait::FromDeriveInput | Trait::FromVariant | Trait::FromTypeParam) => s.container.from_ident = true,
+                _ => {}
+            }
             if matches!(tr, Trait::FromDeriveInput) && d.ratio(1, 3) {
                 let words = ["any", "struct_any", "struct_named", "struct_newtype", "struct_tuple", "struct_unit", "enum_any", "enum_named", "enum_newtype", "enum_tuple", "enum_unit"];
                 let n = d.range(1, 4);
